@@ -3,7 +3,8 @@
 usage: suite_cases.py [--build]   (--build: cmake --build /repo/_build first). Exit 0 iff every baseline stable_pass case passes."""
 import json, subprocess, os, sys, tempfile, xml.etree.ElementTree as ET
 if '--build' in sys.argv:
-    r = subprocess.run(['cmake', '--build', '/repo/_build', '-j8']   # -j16 got cc1plus OOM-killed on the 62 GB machine (conv / cosine_similarity tests need ~6 GB each)); 
+    # -j16 got cc1plus OOM-killed on the 62 GB machine (conv / cosine_similarity tests need ~6 GB each)
+    r = subprocess.run(['cmake', '--build', '/repo/_build', '-j8'])
     if r.returncode != 0: print('BUILD FAILED'); sys.exit(2)
 info = json.loads(subprocess.run(["ctest", "--test-dir", "/repo/_build", "--show-only=json-v1"], capture_output=True, text=True).stdout)
 passed = set(); failed = set(); d = tempfile.mkdtemp(prefix='suite-', dir='/var/tmp')
